@@ -2687,6 +2687,10 @@ impl Server {
                             if let RespFrame::BulkString(Some(seconds_bytes)) = &parts[i + 1] {
                                 if let Ok(seconds_str) = String::from_utf8(seconds_bytes.as_ref().clone()) {
                                     if let Ok(seconds) = seconds_str.parse::<u64>() {
+                                        // The expire time must be positive
+                                        if seconds == 0 {
+                                            return Ok(RespFrame::error("ERR invalid expire time"));
+                                        }
                                         expiration = Some(Duration::from_secs(seconds));
                                         i += 2;
                                         continue;
@@ -2702,6 +2706,10 @@ impl Server {
                             if let RespFrame::BulkString(Some(millis_bytes)) = &parts[i + 1] {
                                 if let Ok(millis_str) = String::from_utf8(millis_bytes.as_ref().clone()) {
                                     if let Ok(millis) = millis_str.parse::<u64>() {
+                                        // The expire time must be positive
+                                        if millis == 0 {
+                                            return Ok(RespFrame::error("ERR invalid expire time"));
+                                        }
                                         expiration = Some(Duration::from_millis(millis));
                                         i += 2;
                                         continue;
